@@ -150,10 +150,12 @@ def r2(chk):
                         idx = render(par["index"])
                         ok = bool(re.fullmatch(r"&?(kind|Kind::\w+|ctx\.kind|\*?kind)", idx.replace(" ", "")))
                         chk.expect("R2", key, ok, f, node["line"], "applicable_to indexed by something that is not a Kind", found=idx)
-                    elif par is not None and par["k"] == "Tuple" and fi.name == "get_data_type_attrs":
-                        chk.ok("R2", key, f, node["line"], detail="trait-level repeat key (name identity)")
+                    elif par is not None and par["k"] == "Tuple" and len(par["elems"]) == 2 and render(par["elems"][1]).replace(" ", "").endswith(".fallible") and f == ATTR:
+                        chk.ok("R2", key, f, node["line"], detail="trait-level repeat key (applicable_to, fallible): name identity")
+                    elif par is not None and par["k"] == "MethodCall" and par["method"] in ("iter", "into_iter", "contains", "any", "all") or (par is not None and par["k"] in ("For", "Binary")):
+                        chk.bad("R2", key, f, node["line"], "applicability vector read as a whole (iterated / compared) instead of per kind", found=render(par)[:100])
                     else:
-                        chk.bad("R2", key, f, node["line"], "applicability vector read as a whole (not per kind)", found=render(par)[:100] if par else "?")
+                        chk.inconc("R2", f"{key} at {f}:{node['line']}: applicability vector used in a way the rule does not classify: " + (render(par)[:80] if par else "?"))
     # ghost vectors iterated raw in expand.rs (shared with C06.R1)
     for fi in repo.fns(EXPAND):
         for node, parents in walk_with_parents(fi.body):
